@@ -27,6 +27,8 @@ type evListener struct {
 	delivered []*deliveredStatus
 	callbacks int32
 	slow      time.Duration // OnEvent takes this long (a slow application)
+	errRet    int           // what OnError answers: 0 true, 1 false, 2 alternating (it must make no difference)
+	nerr      int32
 }
 
 type deliveredStatus struct {
@@ -56,13 +58,31 @@ func (l *evListener) OnEvent(s *types.Status) {
 func (l *evListener) OnError(err error) bool {
 	l.log.add(M{"ev": "error"})
 	atomic.AddInt32(&l.callbacks, 1)
-	return true
+	n := atomic.AddInt32(&l.nerr, 1)
+	return l.errRet == 0 || (l.errRet == 2 && n%2 == 0)
 }
+
+var lastEv [12]byte
+var lastEvMu sync.Mutex
 
 // eventDatagram: class valid | valid19 | badlen | serial0 | badcode | badproto | malformed
 func eventDatagram(rng *rand.Rand, lt *layoutTables, cls string, tag uint32) []byte {
 	m := lt.Event.message(rng, 0x17, []byte{byte(1 + rng.Intn(255)), byte(rng.Intn(256)), byte(rng.Intn(256)), byte(rng.Intn(256))}, "valid", nil)
 	binary.LittleEndian.PutUint32(m[40:44], tag)
+	// a quarter of the well-formed events come from the SAME controller as the previous one and repeat its event index
+	// (nothing new has happened at the controller, or the index was rewound): each datagram is an event of its own
+	if cls == "valid" || cls == "valid19" {
+		lastEvMu.Lock()
+		if lastEv[8] != 0 && rng.Intn(4) == 0 {
+			copy(m[4:12], lastEv[4:12])
+		} else {
+			if m[8] == 0 {
+				m[8] = 1
+			}
+			copy(lastEv[:], m[:12])
+		}
+		lastEvMu.Unlock()
+	}
 	switch cls {
 	case "valid":
 	case "valid19":
@@ -128,7 +148,7 @@ func listenerScenario(id string, seed int64, lt *layoutTables, cycles int, recs 
 	out := []M{}
 	for cy := 0; cy < cycles; cy++ {
 		log := &evlog{}
-		l := &evListener{log: log}
+		l := &evListener{log: log, errRet: (int(seed) + cy) % 3}
 		// every third scenario: a slow application (OnEvent takes 2 ms) that shuts the listener down ABRUPTLY, while
 		// events are still queued behind the one being handled
 		abrupt := seed%3 == 0
@@ -250,7 +270,7 @@ func listenerScenario(id string, seed int64, lt *layoutTables, cycles int, recs 
 func stubEvents(w *shardWriter, evs [][]byte, class string) {
 	ul, dl := stubClient(clientCfg{Listen: "127.0.0.1:60001"})
 	dl.events = evs
-	l := &evListener{log: &evlog{}}
+	l := &evListener{log: &evlog{}, errRet: len(evs) % 3}
 	q := make(chan os.Signal, 1)
 	done := make(chan error, 1)
 	go func() { done <- ul.Listen(l, q) }()
